@@ -7,6 +7,13 @@ CHECKS = {
    text="Every construction event (term the caller wrote, tree claripy returned, values of claripy's Z3 translation) is validated by TLC against the SMT-LIB semantics written in TLA+ (spec/Term.tla): equality under ALL assignments for widths<=3 (bounded-exhaustive depth<=2 trees), sampled assignments for rule-directed and random deep trees at widths 1..128. An independent Z3 equivalence query is the second opinion before any alarm.",
    note="Trusted: TLC, the TLA+ semantics (self-tested against Z3 in setup), Python. Exhaustive only in the small scopes listed in the evidence; larger widths sampled.", ref="5 C01"),
 }
+EXPR_TECH = CHECKS["C01"]["tech"]
+CHECKS["C04"] = dict(engine="expr", cat="exploration", tech=EXPR_TECH,
+  text="Boundary constructions (shift/rotate amounts near 2^w, 2^62, 2^64-1; widths 1,7,8,9,63,64,65,128; If operands mixing constants and symbolic trees under every operator; Reverse of non-byte widths) plus the exhaustive small-width and rule-directed streams are built through the public API under a wall-clock and address-space budget; TLC (TraceExpr.tla) accepts only: an expression, ClaripyZeroDivisionError when a divisor is identically zero, a claripy error for byte-reversal of a non-byte width. Any other exception, Timeout or MemoryError symbol is a violation.",
+  note="Hang = 10 s per construction, memory = 2 GiB address space: bounded observations. FP/string constructions are exercised by the C02/C03 engines (outcome clause).", ref="5 C04")
+CHECKS["C05"] = dict(engine="expr", cat="exploration", tech=EXPR_TECH,
+  text="For every node of every result produced by construction, rewriting, folding, annotation changes, substitution, Z3 abstraction/simplify, canonicalisation and ITE relocation, TLC recomputes width, free variables, depth and (for concrete nodes) the value from the serialised tree with Term.tla and compares with the attributes claripy reports (length, variables superset, symbolic flag, depth, concrete_value).",
+  note="Metadata is compared with a recomputation over the tree claripy holds; streams as C01 plus a seeded stream of annotate/replace/simplify/canonicalize operations at widths 1..64.", ref="5 C05")
 SOLVER_TECH = "TLA+ abstract solver algebra (SolverAbs.tla) + trace validation by TLC (TraceSolver.tla) of recorded histories on the real frontends"
 SOLVER_NOTE = "Trusted: TLC, Term.tla semantics, Z3 inside claripy only as the system under test. Variables of width <= 3 so TLC enumerates every model; histories are seeded-random (length <= 10 + probe battery) over fixed constraint alphabets, REUSE_Z3_SOLVER on and off."
 def solver(pid, text, cat="model_checking", ref=None):
